@@ -6,6 +6,7 @@ and resolving labels into addresses while writing the result with the fjm Writer
 """
 
 import dataclasses
+import sys
 from collections import defaultdict
 from pathlib import Path
 from typing import Deque, List, Dict, Tuple, Optional
@@ -269,6 +270,9 @@ def assemble(
     :param max_recursion_depth: The compiler supports macros that recursively uses other macros,
     up to the specified recursion depth.
     """
+    # the macro-resolve stage sets the interpreter's recursion limit (from max_recursion_depth); restore it when
+    #  done, so that a later assembly in this process isn't parsed under the limit this call chose.
+    recursion_limit_before = sys.getrecursionlimit()
     try:
         with PrintTimer('  parsing:         ', print_time=print_time):
             macros = parse_macro_tree(input_files, memory_width, warning_as_errors)
@@ -293,3 +297,5 @@ def assemble(
         raise FlipJumpAssemblerException(
             "Unknown exception during assembling the .fj files, please report this bug"
         ) from unknown_exception
+    finally:
+        sys.setrecursionlimit(recursion_limit_before)
